@@ -5,8 +5,8 @@
 //! default settings (no decision function installed, fuel unarmed) none of
 //! the hooks changes behaviour.
 
-use std::cell::{Cell, RefCell};
 use std::boxed::Box;
+use std::cell::{Cell, RefCell};
 use std::vec::Vec;
 
 /// A dereference through a `Gc` handle whose slot has been pooled or reused.
